@@ -381,9 +381,7 @@ Proof.
   - destruct w; cbn; split; auto; try discriminate; intros [H | [[f [ok H]] _]]; discriminate.
   - destruct n; cbn.
     + split; [intros _; right; split; [eauto | reflexivity] | reflexivity].
-    + destruct w; cbn; [split; auto| |].
-      * destruct ((f =? 0)%N && ok); cbn; split; try discriminate; intros [H | [_ H]]; discriminate.
-      * destruct ((f =? 0)%N && ok); cbn; split; try discriminate; intros [H | [_ H]]; discriminate.
+    + destruct w; cbn; split; auto; try discriminate; intros [H | [_ H]]; discriminate.
 Qed.
 
 Lemma logging_write_partial lg w n d :
@@ -391,8 +389,7 @@ Lemma logging_write_partial lg w n d :
 Proof.
   unfold logging_write. destruct lg as [|f ok].
   - destruct w; cbn; intros [=]; congruence.
-  - destruct n; cbn; [discriminate|]. destruct w; cbn; try discriminate;
-      destruct ((f =? 0)%N && ok); cbn; intros [=]; congruence.
+  - destruct n; cbn; [discriminate|]. destruct w; cbn; intros [=]; congruence.
 Qed.
 
 Lemma logging_write_called lg w n :
@@ -402,7 +399,7 @@ Proof.
   - cbn. split; [discriminate | intros [[f [ok H]] _]; discriminate].
   - destruct n; cbn.
     + split; [intros _; split; [eauto | reflexivity] | reflexivity].
-    + split; [|intros [_ H]; discriminate]. destruct w; cbn; try discriminate; destruct ((f =? 0)%N && ok); discriminate.
+    + split; [discriminate | intros [_ H]; discriminate].
 Qed.
 
 Lemma handle_closed_eq script q : handle script q = handle_closed q.
@@ -549,12 +546,13 @@ Proof.
   destruct (logging_write _ _ _) as [[| |] called]; reflexivity.
 Qed.
 
-(** without the wrapper, or with a wrapper whose logging works: a partial write is answered
-    422 with its dropped count, any other engine error 500, nil 204 *)
+(** with or without the wrapper, whatever its logging does: a partial write is answered 422
+    with its dropped count, any other engine error 500, nil 204 (a batch without points behind
+    the wrapper never reaches the engine: 204) *)
 Lemma writer_error_reported_plain script q :
   precheck q = None -> u_end (q_stream q) = EndEOF -> accepted_size q -> progresses q ->
   (forall t, In t (candidate_lines (u_rem (q_stream q))) -> is_ok (parse_point (q_prec q) DFLT t) = true) ->
-  (q_logger q = LNone \/ (exists ok, q_logger q = LWrap 0 ok /\ ok = true) /\ parsed_points q <> []) ->
+  (q_logger q = LNone \/ parsed_points q <> []) ->
   handle script q =
     match q_writer q with
     | WOk => {| r_status := 204; r_code := C_NONE; r_rejected := []; r_dropped := None; r_calls := [all_points q] |}
@@ -564,9 +562,10 @@ Lemma writer_error_reported_plain script q :
     end.
 Proof.
   intros Hp He Ha Hpr Hall Hlg. pose proof (writer_error_reported script q Hp He Ha Hpr Hall) as H.
-  destruct Hlg as [Hlg | [[ok [Hlg ->]] Hne]]; rewrite Hlg in H; unfold logging_write in H.
-  - destruct (q_writer q); exact H.
-  - destruct (parsed_points q) eqn:Hpp; [congruence|]. cbn [length] in H.
+  unfold logging_write in H. destruct Hlg as [Hlg | Hne].
+  - rewrite Hlg in H. destruct (q_writer q); exact H.
+  - destruct (q_logger q); [destruct (q_writer q); exact H|].
+    destruct (parsed_points q) eqn:Hpp; [congruence|]. cbn [length] in H.
     destruct (q_writer q); exact H.
 Qed.
 
